@@ -96,13 +96,14 @@ func (s *socket) RecvMsg() (*protocol.Message, error) {
 	if s.recvExpire > 0 {
 		tq = time.After(s.recvExpire)
 	}
+	recvq := s.recvq
 	s.Unlock()
 	select {
 	case <-s.closeq:
 		return nil, protocol.ErrClosed
 	case <-tq:
 		return nil, protocol.ErrRecvTimeout
-	case m := <-s.recvq:
+	case m := <-recvq:
 		return m, nil
 	}
 }
@@ -183,11 +184,15 @@ func (s *socket) GetOption(option string) (interface{}, error) {
 }
 
 func (s *socket) AddPipe(pp protocol.Pipe) error {
+	s.Lock()
+	sendQLen := s.sendQLen
+	s.Unlock()
+
 	p := &pipe{
 		p:      pp,
 		s:      s,
 		closeq: make(chan struct{}),
-		sendq:  make(chan *protocol.Message, s.sendQLen),
+		sendq:  make(chan *protocol.Message, sendQLen),
 	}
 	pp.SetPrivate(p)
 	s.Lock()
@@ -263,9 +268,13 @@ outer:
 			break
 		}
 
+		s.Lock()
+		ttl := s.ttl
+		s.Unlock()
+
 		if len(m.Body) < 4 ||
 			m.Body[0] != 0 || m.Body[1] != 0 || m.Body[2] != 0 ||
-			int(m.Body[3]) >= s.ttl {
+			int(m.Body[3]) >= ttl {
 			m.Free()
 			continue
 		}
@@ -287,11 +296,12 @@ outer:
 				m2.Free()
 			}
 		}
+		recvq := s.recvq
 		s.Unlock()
 		m.Free()
 
 		select {
-		case s.recvq <- userm:
+		case recvq <- userm:
 		case <-p.closeq:
 			userm.Free()
 			break outer
